@@ -8,6 +8,7 @@ Oracle: envexplore.StepContractOracle evaluated on every step/reset of every exp
 """
 from __future__ import annotations
 
+import os
 import time
 
 from .. import common, engine, envexplore as EE, harness_env as HE
@@ -146,7 +147,10 @@ def explore(tier, is_known, oracle_factory, prop, plan=None):
     outcomes = 0
     exhaustive = True
     todo = []
+    only = [x for x in os.environ.get("VERIF_ONLY", "").split(",") if x]  # development aid: restrict the plan to named scenarios
     for name, cfg, mode, p in (plan or scenarios(tier)):
+        if only and name not in only:
+            continue
         ad = make_adapter(name, cfg, p, oracle_factory())
         ad.name = ad.name.replace("c01-", prop.lower() + "-")
         engine._ADAPTERS[ad.name] = ad  # register everything before the pool is forked: one pool for the whole run
